@@ -689,6 +689,12 @@ func (s *ScopedKeyManager) DeriveFromKeyPathCache(
 	watchOnly := s.rootManager.WatchOnly()
 	private := !s.rootManager.IsLocked() && !watchOnly
 
+	// An account without a private key (an imported extended public key)
+	// has nothing a private key could be derived from.
+	if private && acctInfo.acctKeyPriv == nil {
+		return nil, managerError(ErrWatchingOnly, errWatchingOnly, nil)
+	}
+
 	// Now that we have the account information, we can derive the key
 	// directly.
 	addrKey, err := s.deriveKey(acctInfo, kp.Branch, kp.Index, private)
